@@ -15,6 +15,11 @@ class SimFile:
         self._pos = 0
         self.closed = False
         self._special = isinstance(node, list)
+        # like io.BufferedWriter: written data reaches the file (and becomes
+        # visible under its name) only when the buffer fills, on seek/flush,
+        # or on close
+        self._buf = []
+        self._buffered = 0
 
     def _check(self):
         if self.closed:
@@ -39,17 +44,32 @@ class SimFile:
         fs = self.fs
         if self._special:
             self._node.append((fs.sim.stamp(), fs.sim.current.tid, bytes(data)))
-        else:
-            node = self._node
-            end = self._pos + len(data)
-            if self._pos > len(node):
-                node.extend(b'\0' * (self._pos - len(node)))
-            node[self._pos:end] = data
-            self._pos = end
-        fs.mutated('write', self.name, len(data))
+            fs.mutated('write', self.name, len(data))
+            return
+        self._buf.append((self._pos, bytes(data)))
+        self._buffered += len(data)
+        self._pos += len(data)
+        if self._buffered > fs.buffer_size:
+            self._flush()
+
+    def _flush(self):
+        if not self._buf:
+            return
+        node = self._node
+        n = 0
+        for pos, data in self._buf:
+            end = pos + len(data)
+            if pos > len(node):
+                node.extend(b'\0' * (pos - len(node)))
+            node[pos:end] = data
+            n += len(data)
+        self._buf = []
+        self._buffered = 0
+        self.fs.mutated('write', self.name, n)
 
     def read(self, n=-1):
         self._check()
+        self._flush()
         self.fs.sim.point('fs.read')
         f = self.fs.faults.hit('fs', op='read', path=self.name)
         if f is not None:
@@ -70,6 +90,7 @@ class SimFile:
         self._check()
         if self._special:
             raise OSError(errno.ESPIPE, 'Illegal seek')
+        self._flush()
         if whence == 0:
             self._pos = where
         elif whence == 1:
@@ -92,9 +113,11 @@ class SimFile:
         return 'r' in self.mode
 
     def flush(self):
-        pass
+        self._check()
+        self._flush()
 
     def truncate(self, size=None):
+        self._flush()
         if size is None:
             size = self._pos
         node = self._node
@@ -116,9 +139,13 @@ class SimFile:
         fs.open_handles.discard(self)
         f = fs.faults.hit('fs', op='close', dest=fs.dest_of(self.name))
         if f is not None:
+            # the final flush failed: buffered data is lost, the handle is closed
+            self._buf = []
+            self._buffered = 0
             exc = make_exc(f['exc'], f['id'])
             fs.faults.record(f, exc, fs.sim.stamp(), op='close', path=self.name)
             raise exc
+        self._flush()
 
     def __enter__(self):
         return self
@@ -143,6 +170,7 @@ class SimFS:
         self.dests = {}        # dest path -> transfer idx
         self.open_handles = set()
         self.mutations = 0
+        self.buffer_size = getattr(world, 'knobs', {}).get('fs_buffer', 8192)
 
     def dest_of(self, path):
         """The tracked destination a path belongs to (itself or its temp)."""
